@@ -31,7 +31,7 @@
 #define ALLW(P) (P (0) && P (1) && P (2))
 
 /* element lifetimes (C03): inside the object that holds the elements, exactly the size () cells from data () on hold a live element */
-#define CELL1(s, i) (IMPLIES (SAMEOBJ (WP[i], DATA (s)), IFF (LIVE (i), IN_RANGE (WP[i], DATA (s), SZ (s)))) \
+#define CELL1(s, i) (IMPLIES (DATA (s) != 0 && SAMEOBJ (WP[i], DATA (s)), IFF (LIVE (i), IN_RANGE (WP[i], DATA (s), SZ (s)))) \
                      && IMPLIES (SAMEOBJ (WP[i], (s)) && !SAMEOBJ (DATA (s), (s)), RAW (i)))
 #define CELLS(s) (CELL1 (s, 0) && CELL1 (s, 1) && CELL1 (s, 2))
 
@@ -88,6 +88,9 @@
 /* [lo, hi) and [lo2, hi2) do not overlap; p is not a cell of [lo, hi) */
 #define DISJOINT(lo, hi, lo2, hi2) (!SAMEOBJ (lo, lo2) || OFF (hi) <= OFF (lo2) || OFF (hi2) <= OFF (lo))
 #define NOT_IN(p, lo, hi)          (!SAMEOBJ (p, lo) || OFF (p) + ESZ <= OFF (lo) || OFF (p) >= OFF (hi))
+/* p is not one of the raw cells [size, capacity) of the container (offsets only: data () may be null) */
+#define NOT_IN_SPARE(p, s)         (!SAMEOBJ (p, DATA (s)) || OFF (p) + ESZ <= OFF (DATA (s)) + (SZ (s) << ESZ_LOG2) || OFF (p) >= OFF (DATA (s)) + (CAP (s) << ESZ_LOG2))
+#define NOT_IN_BUF(p, s)           (!SAMEOBJ (p, DATA (s)) || OFF (p) + ESZ <= OFF (DATA (s)) || OFF (p) >= OFF (DATA (s)) + (CAP (s) << ESZ_LOG2))
 
 /* ghost objects a cell operation may change */
 #define GHOST_CELLS __CPROVER_object_whole (WS), used_kinds
